@@ -210,7 +210,7 @@ def exact_payloads(ctx, rng, nchunk=4):
         cs += [gen_exact_case(rng, eigh) for _ in range(ncase - len(cs))]
         cases += cs
     chunks = [cases[i::nchunk] for i in range(nchunk)]
-    return [{'kind': 'book_exact', 'cases': ch} for ch in chunks if ch]
+    return [{'kind': 'book_exact', 'cases': ch, 'cov': True} for ch in chunks if ch]
 
 
 def exact_streams(ctx, payloads, res):
@@ -328,6 +328,9 @@ def exact_case_literal(ctx, stream, c, x, hist):
 
 
 # ------------------------------------------------------------------------------------------ QR based decomposition
+KNOWN_GAUGE = 'C15:_qr_theta_Y0:nonzero-old-qtotal:gauge_total_charge-result-dropped'
+
+
 def gen_qr_case(rng, seed, engine):
     model = rng.choice(['tfi', 'xxz'])
     conserve = rng.choice([None, 'parity']) if model == 'tfi' else rng.choice([None, 'Sz', 'parity'])
@@ -356,6 +359,14 @@ def gen_qr_case(rng, seed, engine):
         c['real_time'] = rng.random() < 0.7
         c['dt'] = rng.choice([0.1, 0.3, 1.0])
         c['scale'] = rng.choice([1.0, 1.0, 2.0, 0.5, 0.125])
+        # equivalent presentations of the same input: non-zero total charges of the old tensors, old bond leg not blocked
+        if conserve is not None and rng.random() < 0.4:
+            c['qshift'] = rng.choice([1, 1, -1, 2])
+        if rng.random() < 0.3:
+            c['unblocked_leg'] = True
+        c['config'] = rng.random() < 0.3
+        c['trunc']['chi_min'] = rng.choice(['absent', 'absent', None, 2])
+        c['trunc']['degeneracy_tol'] = rng.choice(['absent', 'absent', None, 1e-6])
     return c
 
 
@@ -408,6 +419,23 @@ def qr_call_problems(rep, chi_max, compute_err):
     return probs, nontrivial
 
 
+def note_qr_params(ctx, c, x):
+    p = ctx.c15params
+    f = 'decompose_theta_qr_based'
+    p.note(f, 'move_right', str(c['move_right']))
+    p.note(f, 'expand', str(c['expand']))
+    p.note(f, 'min_block_increase', str(c['min_block_increase']))
+    p.note(f, 'use_eig_based_svd', str(c['eig']))
+    p.note(f, 'compute_err', str(c['compute_err']))
+    p.note(f, 'return_both_T', str(c['both']))
+    p.note(f, 'trunc_params', 'Config' if c.get('config') else 'dict')
+    p.note_opts(f, c['trunc'], 'trunc_params')
+    v = x.get('variant') or {}
+    p.note(f, 'old_qtotal_L', 'non-zero' if any(v.get('qtotal_L', [0])) else 'zero')
+    p.note(f, 'old_qtotal_R', 'non-zero' if any(v.get('qtotal_R', [0])) else 'zero')
+    p.note(f, 'old_bond_leg', 'not blocked' if v.get('leg_blocked') is False else 'blocked')
+
+
 def qr_payloads(ctx, rng, nchunk):
     nd, ne = ctx.pick(200, 290), ctx.pick(40, 150)
     if not ctx.proof.ok:
@@ -425,7 +453,7 @@ def qr_payloads(ctx, rng, nchunk):
         c.pop('expand_0', None)
         cases.append(c)
     chunks = [cases[i::nchunk] for i in range(nchunk)]
-    return [{'kind': 'qr', 'cases': ch} for ch in chunks if ch]
+    return [{'kind': 'qr', 'cases': ch, 'cov': True} for ch in chunks if ch]
 
 
 def qr_streams(ctx, payloads, res):
@@ -441,16 +469,43 @@ def qr_streams(ctx, payloads, res):
             if 'runner_error' in x:
                 ctx.fail('correspondence', 'qr runner failed: ' + x['runner_error'][-500:], {'stream': stream, 'case': c})
                 continue
+            gauged = any((x.get('variant') or {}).get('qtotal_L', [0])) or any((x.get('variant') or {}).get('qtotal_R', [0]))
             if 'error' in x:
                 # structural condition of the failure: did _qr_theta_Y0 hand back an EMPTY expanded bond?
-                mk = ('C15:decompose_theta_qr_based:empty-Y0-raises' if x.get('empty_Y0') and c['min_block_increase'] == 0
+                mk = (KNOWN_GAUGE if gauged and x.get('empty_Y0') else
+                      'C15:decompose_theta_qr_based:empty-Y0-raises' if x.get('empty_Y0') and c['min_block_increase'] == 0
                       else 'C15:qr-raises:' + x['error'].split(':')[0])
+                if not c.get('engine'):
+                    note_qr_params(ctx, c, x)
                 ctx.count(stream, c, nontrivial=True)
                 ctx.fail('oracle', 'decompose_theta_qr_based raised: %s%s' % (x['error'], ' (_qr_theta_Y0 returned an empty expanded bond)' if x.get('empty_Y0') else ''),
                          {'stream': stream, 'case': c, 'impl': x}, match_key=mk)
                 continue
             calls = x['calls'] if c.get('engine') else [x]
             probs, nontriv = [], False
+            if not c.get('engine'):
+                note_qr_params(ctx, c, x)
+                if not x.get('theta_unchanged', True):
+                    probs.append('decompose_theta_qr_based modified its argument theta')
+                if 'base' in x:
+                    # the same two-site wave function presented with gauged total charges / an unblocked old bond leg
+                    b = x['base']
+                    if 'error' in b:
+                        probs.append('the plain presentation of the same input raises ' + b['error'])
+                    else:
+                        same = len(b['S']) == len(x['S']) and all(abs(u - v) < 1e-9 for u, v in zip(sorted(b['S']), sorted(x['S'])))
+                        eps_same = (b['eps'] != b['eps'] and x['eps'] != x['eps']) or abs(b['eps'] - x['eps']) < 1e-11
+                        if not same or not eps_same or abs(b['renorm'] - x['renorm']) > 1e-9 * abs(b['renorm']):
+                            probs.append('equivalent presentation of the input (%s) changes the decomposition: chi %d vs %d, eps %.6e vs %.6e'
+                                         % (x['variant'], len(x['S']), len(b['S']), x['eps'], b['eps']))
+                    hist['variants'] = hist.get('variants', 0) + 1
+                    hist['variants_nonzero_qtotal'] = hist.get('variants_nonzero_qtotal', 0) + (1 if gauged else 0)
+                    if probs and gauged and all(p.startswith('equivalent presentation') for p in probs):
+                        # root cause: the charges of Y0 are not gauged to the non-zero total charge of the old tensor
+                        ctx.count(stream, c, nontrivial=True)
+                        ctx.fail('oracle', 'decompose_theta_qr_based: ' + probs[0], {'stream': stream, 'case': c, 'impl': {k: x[k] for k in ('variant', 'base', 'S', 'eps')}},
+                                 match_key=KNOWN_GAUGE)
+                        continue
             for rep in calls:
                 ce = rep['kw']['compute_err'] if 'kw' in rep else c['compute_err']
                 p, nt = qr_call_problems(rep, chi_max, ce)
@@ -490,5 +545,6 @@ def run(ctx, rng):
     pe = exact_payloads(ctx, rng, nex)
     pq = qr_payloads(ctx, rng, max(2, common.NPROC - nex))
     res = common.run_impl_parallel('c15_impl.py', pe + pq)
+    res = [ctx.c15cov.unwrap('book-exact' if i < len(pe) else 'qr', r) for i, r in enumerate(res)]
     exact_streams(ctx, pe, res[:len(pe)])
     qr_streams(ctx, pq, res[len(pe):])
